@@ -119,5 +119,9 @@ Qed.
 Lemma on_retract_response_AI rqf rqs s w ids s' : AIS rqf rqs s -> on_retract_response s w ids = Ok s' -> AIS rqf rqs s'.
 Proof.
   unfold on_retract_response. intros HA H. destruct (retract_response_states (core_of s) w ids []) as [c' groups] eqn:E.
-  unfold AIS. rewrite (send_redirected_core _ _ _ H). cbn. eapply retract_response_states_AI; [exact HA | exact E].
+  apply bind_ok in H. destruct H as (s2 & H & H2).
+  assert (X2 : AIS rqf rqs s2).
+  { unfold AIS. rewrite (send_redirected_core _ _ _ H). cbn. eapply retract_response_states_AI; [exact HA | exact E]. }
+  destruct (retract_wakes _ _ _ _); inversion H2; subst s'; clear H2; [|exact X2].
+  apply ask_scheduling_AI. exact X2.
 Qed.
